@@ -41,7 +41,7 @@ def required_cells(tier):
              "link:file-inside", "link:dir-inside", "link:outside", "link:dangling", "link:chain",
              "spell:absolute", "spell:relative-root", "spell:relative-other-cwd", "spell:dot", "spell:dotdot", "spell:via-link",
              "member:yes", "member:no-extension", "member:no-excluded", "member:no-outside", "member:no-directory",
-             "member:no-missing", "iter"]
+             "member:no-missing", "iter", "outside:sibling-with-root-prefix"]
     return cells
 
 
@@ -175,6 +175,11 @@ def build(base, tree):
     for o in tree["outside"]:
         with open(os.path.join(base, o), "w") as fh:
             fh.write("int o;\n")
+    # siblings of the root whose names merely start with the root's name
+    for sib in ("root-old", "root2", "rootfiles/src"):
+        os.makedirs(os.path.join(base, sib), exist_ok=True)
+        with open(os.path.join(base, sib, "legacy.c"), "w") as fh:
+            fh.write("int legacy;\n")
     for l, (where, target) in tree["links"].items():
         p = os.path.join(root, l)
         t = os.path.join(root if where == "in" else base, target)
@@ -241,6 +246,9 @@ def check_case(ctx, git, tree, patterns, feats, base, cls):
             for name in sorted(os.listdir(lp))[:4]:
                 rels.append(os.path.join(l, name))
     queries = []
+    for sib in ("root-old/legacy.c", "root2/legacy.c", "rootfiles/src/legacy.c"):
+        queries.append((sib, "absolute", os.path.join(os.path.dirname(root), sib), root))
+        queries.append((sib, "relative-root", os.path.join("..", sib), root))
     for rel in rels:
         for kind, path, cwd in spellings(root, rel, rng, tree):
             queries.append((rel, kind if not any(rel == l or rel.startswith(l + "/") for l in tree["links"]) else "via-link", path, cwd or root))
@@ -278,6 +286,8 @@ def check_case(ctx, git, tree, patterns, feats, base, cls):
             cells.add("spell:" + kind)
             cells.add({"member": "member:yes", "excluded": "member:no-excluded", "extension": "member:no-extension",
                        "outside": "member:no-outside", "directory": "member:no-directory", "missing": "member:no-missing"}[why])
+            if why == "outside" and rel.startswith("root"):
+                cells.add("outside:sibling-with-root-prefix")
             if why == "member":
                 n_member += 1
             if why == "excluded":
